@@ -608,6 +608,11 @@ class Association(threading.Thread):
             while not self._is_paused and not self._kill:
                 time.sleep(0.0001)
 
+            # The association may have ended while waiting for the reactor
+            if not self.is_established:
+                self._reactor_checkpoint.set()
+                return
+
             LOGGER.info("Releasing Association")
             self.acse.negotiate_release()
             # Restart reactor
